@@ -117,6 +117,8 @@ def generate(prop, rng, tier):
             op['fill'] = rng.choice(GARBAGE)
         if t in ('ip', 'alias'):
             op['olay'] = rng.choice(LAYOUTS)
+            if t == 'ip' and rng.random() < 0.08:
+                op['olay'] = 'interleaved'
         if t == 'alias':
             op['j'] = rng.randint(0, 1)
             # a second aliased call on the same instance, on what the first
@@ -481,9 +483,28 @@ class Run(object):
         snap = elem_snapshot(x) if SP.is_elem(x) else None
         with seams.allocator('zero'):
             r = op.range.element()
-            if o.get('olay', 'C') != 'C':
-                r = _relayout(r, o['olay'])
-                self.ctx.fired('layout-out-' + o['olay'])
+            olay = o.get('olay', 'C')
+            if olay == 'interleaved':
+                # x and out as two columns of one table: disjoint memory
+                # inside the same bounds (np.may_share_memory is True)
+                olay = 'C'
+                if SP.is_elem(x) and not hasattr(x, 'parts') and \
+                        not hasattr(r, 'parts') and \
+                        getattr(r, 'shape', None) == getattr(x, 'shape', 0) \
+                        and getattr(r, 'dtype', 1) == getattr(x, 'dtype', 2):
+                    xa0 = x.asarray()
+                    tab = np.zeros(xa0.shape + (2,), dtype=xa0.dtype)
+                    tab[..., 0] = xa0
+                    x2 = op.domain.element(tab[..., 0])
+                    r2 = op.range.element(tab[..., 1])
+                    if np.shares_memory(x2.asarray(), tab) and \
+                            np.shares_memory(r2.asarray(), tab):
+                        x, r = x2, r2
+                        snap = elem_snapshot(x)
+                        self.ctx.fired('layout-interleaved-x-out')
+            if olay != 'C':
+                r = _relayout(r, olay)
+                self.ctx.fired('layout-out-' + olay)
         used = fill_elem(r, o['fill'], salt=i)
         self.ctx.fired('out-' + str(used))
         fired = {}
